@@ -14,11 +14,11 @@ out = ["## 13. Seeded changes and which checks catch them", "",
        "re-runs every check against every change (scratch worktree + `DISCOPY_REPO`). Current result:",
        "**%d of %d caught** (%d of them only as a broken correspondence, `no-failing-input-found`)." % (caught, len(rows), nfi),
        "",
-       "The changes came in five rounds (`Cxx-m1..3`, `-r2m*`, `-r3m*`, `-r4m*`, `-r5m*`); from round 2 on each",
+       "The changes came in six rounds (`Cxx-m1..3`, `-r2m*` … `-r6m*`; round 6 for ten properties only); from round 2 on each",
        "agent was told what the earlier rounds had produced and asked for something different and harder to",
        "notice (rarely used flags and calling conventions, second use of an object, state carried between",
        "calls, cross-class mixes, sizes, data types). Caught with a failing input on the FIRST run, before any",
-       "strengthening: round 1 56/60, round 2 26/40, round 3 16/40, round 4 26/40, round 5 24/40. Every miss was",
+       "strengthening: round 1 56/60, round 2 26/40, round 3 16/40, round 4 26/40, round 5 24/40, round 6 17/20. Every miss was",
        "turned into a generalised region of inputs by a follow-up (never a single pinned regression case):",
        "PRO self-adjoint types, spiral and double-leg snakes, twins, total callable box and object maps, exotic",
        "and typed wire values, chained substitutions, late-mixing circuits, custom 0..2-qubit gates, `==`-equal",
